@@ -273,7 +273,7 @@ func init() {
 		},
 		MustReach: []string{"c04.match", "c04.nomatch", "c04.target.url", "c04.target.hostname", "c04.parse"},
 		Bounds: map[string]string{
-			"quick":    "rules: every single modifier of the grammar with every value set of its menu in every value order (1..4 values, negations, wildcard TLD, IPv4/IPv6/CIDR/quoted clients) plus 40 seeded pairs and 30 seeded multi-modifier rules; request: third-party flag, hostname-request flag, one-hot content type, 16-bit DNS type, client name 0..1 bytes, client IP absent / IPv4 with two symbolic bytes / IPv6 with two symbolic bytes, 0..2 sorted one-byte tags all symbolic; source host 1,3,4,5,6 symbolic bytes over {z,q,.} plus tail {'', .com, .co.uk} or empty; request host 1,4 bytes plus tail or empty",
+			"quick":    "rules: every single modifier of the grammar with every value set of its menu in every value order (1..4 values, negations, wildcard TLD, IPv4/IPv6/CIDR/quoted clients) plus 40 seeded pairs and 30 seeded multi-modifier rules; request: third-party flag, hostname-request flag, one-hot content type, 16-bit DNS type, client name 0..1 bytes, client IP absent / IPv4 with two symbolic bytes / IPv6 with two symbolic bytes, 0..2 sorted one-byte tags all symbolic; source host 1,3,4,5,6 symbolic bytes over {z,q,.} plus tail {'', .com, .co.uk} or empty; request host 1,4 bytes over {z,q,d,.} (d: a hexadecimal letter, so that hosts pass the IsProbablyIP character test without being addresses) plus tail or empty",
 			"thorough": "400 pairs and 300 multi-modifier rules; source hosts up to 8 and request hosts up to 6 symbolic bytes",
 		},
 		Outside:     []string{"the pattern conjunct for URL requests (C03/C05): there the pattern is ||example.org^ and the URL is fixed; for hostname requests the choice of the match target is checked on every 1-token mask pattern and a menu of scheme/path patterns with hostnames of 2,5,8 symbolic bytes", "zero or multi-bit request types (not a documented request)", "the Public Suffix List beyond the validated compact model", "netip.Prefix.Contains is executed from its real body on both sides of the comparison"},
